@@ -14,6 +14,8 @@ def run(ctx):
     nsqdmc.model_check(ctx)
     n = 16 if ctx.quick else 120
     corelib.run_modes(ctx, "C07", [("bytes", n + n // 2), ("core", n // 2)])
+    if not ctx.quick:
+        corelib.repo_tests(ctx, "C07")
     ctx.cov["distinct_nontrivial"] = len(ctx.notes.get("event_kinds", {}))
     ctx.cov["rule"] = ("evaluations = hook/harness events of real executions checked step by step by TLC against "
                        "NsqdAbs; distinct = event kinds (spec actions) exercised")
